@@ -2,25 +2,26 @@
 # usage: tools_seed.sh <PROP> <n> <pkgdir-of-demo> "<test pkgs>" [harness-filter]
 # 1. confirms the seeded change in the scratch worktree /tmp/seed_<PROP> (tests pass, demo fails with / passes without)
 # 2. applies it to /repo, runs ./check <PROP> quick, reverts
+SEEDFLAGS=${SEEDFLAGS:-}
 export GOFLAGS=-mod=mod GOPROXY=off GOSUMDB=off GOTOOLCHAIN=local
 P=$1; N=$2; DEMODIR=$3; PKGS=$4; ONLY=$5
 OUT=/tmp/seed_${P}_out/$N; WT=/tmp/seed_$P
 cd $WT || exit 9
 git checkout -q -- . ; rm -f $DEMODIR/zz_demo_test.go
 git apply $OUT/patch.diff || { echo "SEED: patch does not apply in worktree"; exit 9; }
-go test -modfile=/tmp/seedtools/alt.mod -ldflags=-checklinkname=0 -vet=off -count=1 $PKGS > /tmp/seed_t.log 2>&1; T1=$?
+go test $SEEDFLAGS -vet=off -count=1 $PKGS > /tmp/seed_t.log 2>&1; T1=$?
 cp $OUT/demo_test.go $DEMODIR/zz_demo_test.go
-go test -modfile=/tmp/seedtools/alt.mod -ldflags=-checklinkname=0 -vet=off -count=1 -run 'ZZ|Demo' ./$DEMODIR > /tmp/seed_d1.log 2>&1; D1=$?
+go test $SEEDFLAGS -vet=off -count=1 -run 'ZZ|Demo' ./$DEMODIR > /tmp/seed_d1.log 2>&1; D1=$?
 git checkout -q -- .
-go test -modfile=/tmp/seedtools/alt.mod -ldflags=-checklinkname=0 -vet=off -count=1 -run 'ZZ|Demo' ./$DEMODIR > /tmp/seed_d0.log 2>&1; D0=$?
+go test $SEEDFLAGS -vet=off -count=1 -run 'ZZ|Demo' ./$DEMODIR > /tmp/seed_d0.log 2>&1; D0=$?
 rm -f $DEMODIR/zz_demo_test.go
 echo "SEED $P/$N: existing-tests-with-patch exit=$T1 (want 0); demo-with-patch exit=$D1 (want !=0); demo-without exit=$D0 (want 0)"
 cd /repo && git apply $OUT/patch.diff || { echo "SEED: patch does not apply to /repo"; exit 9; }
 cd /verif
 if [ -n "$ONLY" ]; then
-  ./build/symgo -suite harness/$P/harness.json -no-evidence -budget 20m -only "$ONLY" 2>&1 | grep -v "time budget" | tail -8
+  ./build/symgo -suite harness/${HP:-$P}/harness.json -no-evidence -budget 20m -only "$ONLY" 2>&1 | grep -v "time budget" | tail -8
 else
-  ./build/symgo -suite harness/$P/harness.json -no-evidence -budget 20m 2>&1 | grep -v "time budget" | tail -12
+  ./build/symgo -suite harness/${HP:-$P}/harness.json -no-evidence -budget 20m 2>&1 | grep -v "time budget" | tail -12
 fi
 echo "check exit=$?"
 cd /repo && git checkout -q -- . && git status --short
